@@ -744,6 +744,8 @@ def atom_of(expr, body=None, drop_const_phi=False):
         return s, not n
     if t == 'bin' and expr[1] in _SYM:
         fl = _looks_float(expr[2]) or _looks_float(expr[3])
+        if expr[1] == 'Ne':   # canonical form: `a != b` is the negation of `a == b`
+            return 'cmp[' + normalize_cmp('Eq', expr[2], expr[3], fl) + ']', True
         return 'cmp[' + normalize_cmp(expr[1], expr[2], expr[3], fl) + ']', False
     if t == 'call':
         o = None
